@@ -237,6 +237,16 @@ def gen_char(rng):
 
 
 def gen_float(rng):
+    if rng.random() < 0.15:
+        # long fractions: many leading zeros before the first significant digit, or significant digits far to the right
+        k = rng.choice([10, 17, 18, 19, 20, 22, 23, 24, 25, 26, 28, 30, 33, 40, 60])
+        sig = rdigits(rng, rng.choice([1, 1, 3, 7, 17, 20])).lstrip("0") or "1"
+        ip0 = rng.choice(["0", "0", "0", "00", "7", "123"])
+        t = ip0 + "." + "0" * k + sig
+        r = rng.random()
+        if r < 0.4: return t
+        if r < 0.8: return t + rng.choice("eE") + rng.choice(["", "+"]) + str(k + rng.choice([-3, -1, 0, 1, 2, 5, 10]))
+        return t + rng.choice("eE") + "-" + str(rng.choice([1, 5, 280, 290, 300]))
     ip = rng.choice([rdigits(rng, rng.choice([1, 1, 2, 5])), "0", "00", str(rng.randrange(1, 10 ** 16))])
     fp = rng.choice([rdigits(rng, rng.choice([1, 1, 2, 5, 17, 25])), "0", "5", "000", "10"])
     r = rng.random()
@@ -294,6 +304,8 @@ FIXED_SPELLINGS = [
 ]
 
 HARD_FLOATS = [
+    "0.0000000000000000000000001", "0.00000000000000000000001234567", "0.00000000000000000000000000001e29", "0.000000000000000000000000000000000001e36",
+    "123.000000000000000000000000000000000456e3", "0.00000000000000000000000099999999999999999999", "7.0000000000000000000000000000000000000001",
     "9007199254740993.0", "9007199254740992.0", "9007199254740994.0", "9007199254740995.0", "9007199254740993.0000000001",
     "9007199254740992.9999999999", "9007199254740993.00000000000000000000000000001", "0.1", "0.2", "0.3", "5.0e-324", "4.9e-324",
     "2.4703282292062327e-324", "2.4703282292062328e-324", "2.47e-324", "2.48e-324", "7.4e-324", "7.5e-324",
